@@ -1050,7 +1050,136 @@ func (P *Prog) checkBalance(r *Result, rule string) {
 			r.ok(rule, fname(fn)+"#Path", P.pos(fn.Pos()), "every Push is followed by exactly one Pop on every path; depth 0 at every return")
 		}
 	}
-	r.floor(rule, 4)
+	// the primitives themselves: the balance above counts calls, so Push must grow the stack by exactly one
+	// segment on every path and Pop must shrink it by exactly one (a Push that skips some segments, e.g. empty
+	// ones, makes the unconditional Pop of its caller remove a segment that belongs to an enclosing node)
+	for _, fn := range P.Funcs {
+		if !skip(fn) || fn.Blocks == nil || fn.Parent() != nil || (fn.Name() != "Push" && fn.Name() != "Pop") {
+			continue
+		}
+		r.sawFunc(fname(fn))
+		grow := map[*ssa.BasicBlock]bool{}
+		nStores := 0
+		other := ""
+		recvP := ssa.Value(fn.Params[0])
+		eachInstr(fn, func(b *ssa.BasicBlock, _ int, in ssa.Instruction) {
+			st, ok := in.(*ssa.Store)
+			if !ok || cv(st.Addr) != recvP {
+				return
+			}
+			nStores++
+			switch x := cv(st.Val).(type) {
+			case *ssa.Call:
+				// append(*p, one element)
+				if callOf(x).builtin == "append" && len(x.Call.Args) == 2 {
+					if ld, ok := cv(x.Call.Args[0]).(*ssa.UnOp); ok && ld.Op == token.MUL && cv(ld.X) == recvP && singleVarargElem(x.Call.Args[1]) != nil {
+						if fn.Name() == "Push" {
+							grow[b] = true
+							return
+						}
+					}
+				}
+			case *ssa.Slice:
+				// (*p)[:len(*p)-1]
+				if ld, ok := cv(x.X).(*ssa.UnOp); ok && ld.Op == token.MUL && cv(ld.X) == recvP && x.Low == nil && x.High != nil {
+					if bo, ok := x.High.(*ssa.BinOp); ok && bo.Op == token.SUB {
+						if k, ok := constInt(bo.Y); ok && k == 1 {
+							if lc, ok := bo.X.(*ssa.Call); ok && callOf(lc).builtin == "len" && sameValue(lc.Call.Args[0], ld) {
+								if fn.Name() == "Pop" {
+									grow[b] = true
+									return
+								}
+							}
+						}
+					}
+				}
+			}
+			other = P.ipos(in)
+		})
+		c := fname(fn) + "#net-effect"
+		// every path from entry to a return passes a block that makes the change; for Pop, the edge of an
+		// underflow test on which the stack is empty (`if len(*p) == 0 { return }`, `if n := len(*p); n > 0 {…}`)
+		// is not a skipped Pop: there is nothing to pop
+		emptyEdge := func(b *ssa.BasicBlock) int {
+			if fn.Name() != "Pop" {
+				return -1
+			}
+			iff, ok := b.Instrs[len(b.Instrs)-1].(*ssa.If)
+			if !ok {
+				return -1
+			}
+			bo, ok := iff.Cond.(*ssa.BinOp)
+			if !ok {
+				return -1
+			}
+			lc, ok := cv(bo.X).(*ssa.Call)
+			if !ok || callOf(lc).builtin != "len" {
+				return -1
+			}
+			ld, ok := cv(lc.Call.Args[0]).(*ssa.UnOp)
+			if !ok || ld.Op != token.MUL || cv(ld.X) != recvP {
+				return -1
+			}
+			k, ok := constInt(bo.Y)
+			if !ok {
+				return -1
+			}
+			switch {
+			case lenIsZero(bo.Op, k, true):
+				return 0
+			case lenIsZero(bo.Op, k, false):
+				return 1
+			}
+			return -1
+		}
+		always := true
+		seen := map[*ssa.BasicBlock]bool{}
+		var walk func(b *ssa.BasicBlock)
+		walk = func(b *ssa.BasicBlock) {
+			if seen[b] || grow[b] {
+				return
+			}
+			seen[b] = true
+			if isExit(b) {
+				always = false
+				return
+			}
+			skip := emptyEdge(b)
+			for i, s := range b.Succs {
+				if i != skip {
+					walk(s)
+				}
+			}
+		}
+		walk(fn.Blocks[0])
+		switch {
+		case other != "":
+			r.bad(rule, c, other, "the path stack is rewritten other than by one append (Push) / dropping the last segment (Pop)")
+		case len(grow) == 0:
+			r.bad(rule, c, P.pos(fn.Pos()), fn.Name()+" never changes the path stack")
+		case !always:
+			r.bad(rule, c, P.pos(fn.Pos()), fn.Name()+" changes the path stack on some paths only: the callers' unconditional Push/Pop pairs no longer balance, and a Pop can remove a segment of an enclosing node (or the reserved root slot of the pooled builder)")
+		case nStores != len(grow):
+			r.bad(rule, c, P.pos(fn.Pos()), fn.Name()+" changes the path stack more than once")
+		default:
+			r.ok(rule, c, P.pos(fn.Pos()), "net effect of exactly one segment on every path")
+		}
+	}
+	r.floor(rule, 6)
+}
+
+// lenIsZero: the comparison `len(x) <op> k` taken with the given truth value says exactly len(x) == 0.
+func lenIsZero(op token.Token, k int64, truth bool) bool {
+	type key struct {
+		op token.Token
+		k  int64
+		t  bool
+	}
+	switch (key{op, k, truth}) {
+	case key{token.EQL, 0, true}, key{token.NEQ, 0, false}, key{token.LSS, 1, true}, key{token.GEQ, 1, false}, key{token.LEQ, 0, true}, key{token.GTR, 0, false}:
+		return true
+	}
+	return false
 }
 
 // checkReleaseMultiplicity: an issue is inserted into the issue map more than
